@@ -341,9 +341,14 @@ Definition core_remove (c : cfg) (g : eng) (id : N) : eng :=
   let keep := filter (fun e => negb (en_id e =? id)) (g_tab g) in
   fold_left (release c) gone (mkEng (g_enf g) (g_reg g) keep).
 
+(* add_node, step 0: a peer that is already listed is only refreshed - it keeps the address it was
+   admitted under, passes no admission check again and is charged nothing (whatever address or
+   validator verdict the new announcement carries) *)
+Definition listed (tab : list entry) (id : N) : bool := existsb (fun e => en_id e =? id) tab.
+
 Definition estep (c : cfg) (self : N) (g : eng) (o : eop) : eng * N :=
   match o with
-  | EAdd id addr valid => core_add c self g id addr valid
+  | EAdd id addr valid => if listed (g_tab g) id then (g, 0) else core_add c self g id addr valid
   | EEvict id => (core_remove c g id, 0)
   | EFail id => (core_remove c g id, 0)
   end.
@@ -441,10 +446,10 @@ Fixpoint eng_prop (c : cfg) (self : N) (tab : list entry) (ops : list eop) (os :
   | [], _ => true
   | o :: ops', (r, snap) :: os' =>
       let tab' := match o with
-                  | EAdd id addr valid => if r =? 0 then tab ++ [mkEnt id addr] else tab
+                  | EAdd id addr valid => if listed tab id then tab else if r =? 0 then tab ++ [mkEnt id addr] else tab
                   | EEvict id | EFail id => filter (fun e => negb (en_id e =? id)) tab
                   end in
-      (match o with EAdd id addr valid => r =? spec_add_verdict c self tab id addr valid | _ => true end) &&
+      (match o with EAdd id addr valid => r =? (if listed tab id then 0 else spec_add_verdict c self tab id addr valid) | _ => true end) &&
       list_N_eqb snap (spec_esnap tab') && eng_prop c self tab' ops' os'
   | _ :: _, [] => false
   end.
